@@ -8,7 +8,9 @@ Abstract input (small JSON):
                'pos': [[x4, y4], ...]   integers = coordinates in quarter units (x = x4 / 4), 'pos_dtype': str,
                'tmpl': [t][s][c] small ints, 'tmpl_dtype': str,
                'pc': [t][j] ints in [0, n_channels), 'tf': [t][j] ints in [0, n_templates), 'ind_dtype': str,
+               'tf_dtype': str (optional, default ind_dtype),
                'wm' | 'wmi' | 'sim': None | [[numbers exact in float32]],
+               'wm_dtype' | 'wmi_dtype' | 'sim_dtype': 'float32' | 'float64' (optional, default float64/float64/float32),
                'ncd': int, 'rate': float, 'offset': int,
                'st': [template id of each spike of the probe]   (optional)}, ...]}
 Spike files: spike i of probe k has time 3 i + k, template (= cluster) st[i], amplitude 1.  Without 'st' every probe gets
@@ -77,7 +79,20 @@ def gen_probe(rng, nc=None, nt=None, ns=3, pcw=2, tfw=2, **o):
         'ncd': ncd, 'rate': o.get('rate', 30000.0), 'offset': o.get('offset', rng.choice([0, 0, 7])),
         'rate_lit': o.get('rate_lit', 'float'),
     }
+    p['tf_dtype'] = o.get('tf_dtype', p['ind_dtype'] if rng.random() < 0.6 else rng.choice(['uint32', 'int32', 'int64']))
+    for name, dflt in MAT_DTYPE.items():
+        p[name + '_dtype'] = o.get(name + '_dtype', dflt if rng.random() < 0.5 else rng.choice(['float32', 'float64']))
     return p
+
+
+MAT_DTYPE = {'wm': 'float64', 'wmi': 'float64', 'sim': 'float32'}
+
+
+def probe_dtypes(p):
+    """dtype names of the probe's files: (channel_map, channel_positions, templates, pc_feature_ind, template_feature_ind,
+    whitening_mat | None, whitening_mat_inv | None, similar_templates | None)"""
+    return (p['cm_dtype'], p['pos_dtype'], p['tmpl_dtype'], p['ind_dtype'], p.get('tf_dtype', p['ind_dtype'])) + tuple(
+        (p.get(n + '_dtype', MAT_DTYPE[n]) if p.get(n) is not None else None) for n in ('wm', 'wmi', 'sim'))
 
 
 def _np_dtype(name):
@@ -101,13 +116,14 @@ def materialise(inp, base):
         np.save(os.path.join(d, 'channel_positions.npy'), pos)
         np.save(os.path.join(d, 'templates.npy'), np.array(p['tmpl'], dtype=p['tmpl_dtype']).reshape(nt, -1, n))
         np.save(os.path.join(d, 'pc_feature_ind.npy'), np.array(p['pc'], dtype=p['ind_dtype']).reshape(nt, -1))
-        np.save(os.path.join(d, 'template_feature_ind.npy'), np.array(p['tf'], dtype=p['ind_dtype']).reshape(nt, -1))
+        dts = probe_dtypes(p)
+        np.save(os.path.join(d, 'template_feature_ind.npy'), np.array(p['tf'], dtype=dts[4]).reshape(nt, -1))
         if p.get('wm') is not None:
-            np.save(os.path.join(d, 'whitening_mat.npy'), np.array(p['wm'], dtype='float64').reshape(n, n))
+            np.save(os.path.join(d, 'whitening_mat.npy'), np.array(p['wm'], dtype=dts[5]).reshape(n, n))
         if p.get('wmi') is not None:
-            np.save(os.path.join(d, 'whitening_mat_inv.npy'), np.array(p['wmi'], dtype='float64').reshape(n, n))
+            np.save(os.path.join(d, 'whitening_mat_inv.npy'), np.array(p['wmi'], dtype=dts[6]).reshape(n, n))
         if p.get('sim') is not None:
-            np.save(os.path.join(d, 'similar_templates.npy'), np.array(p['sim'], dtype='float32').reshape(nt, nt))
+            np.save(os.path.join(d, 'similar_templates.npy'), np.array(p['sim'], dtype=dts[7]).reshape(nt, nt))
         with open(os.path.join(d, 'params.py'), 'w') as f:
             f.write("dat_path = ['raw%d.dat']\nn_channels_dat = %d\ndtype = 'int16'\noffset = %d\n"
                     "sample_rate = %s\nhp_filtered = False\n" % (k, p['ncd'], p['offset'], rate_literal(p)))
@@ -213,6 +229,14 @@ def observe(out):
     obs['sim'] = load('similar_templates.npy', 2, 'tok')
     obs['stimes'] = load('spike_times.npy', 1, 'int')
     obs['st'] = load('spike_templates.npy', 1, 'int')
+
+    def dt(name):
+        p = os.path.join(out, name)
+        return np.load(p, mmap_mode='r').dtype.name if os.path.exists(p) else None
+    # dtype names of the merged files (None = not written), in the order of PV.C12.Dtypes.mdt
+    obs['dt'] = [dt(n) for n in ('channel_map.npy', 'channel_probe.npy', 'channel_positions.npy', 'templates.npy',
+                                 'pc_feature_ind.npy', 'template_feature_ind.npy', 'whitening_mat.npy',
+                                 'whitening_mat_inv.npy', 'similar_templates.npy')]
     return obs
 
 
